@@ -208,3 +208,156 @@ package factstore
 //@   requires t != nil
 //@   modifies t.root, t.size
 //@   ensures t.root == nil && t.size == 0 && valid(t.root)
+
+// ---- C06: fact stores as sets of ground atoms ------------------------------------------------------
+
+//@ func Matches(pattern, args)
+//@   pure
+//@   requires len(args) >= len(pattern)
+//@   ensures result == (forall i int :: 0 <= i && i < len(pattern) ==> (pattern[i] is ast.Constant ==> ast.termEq(pattern[i], args[i])))
+//@   loop 1 invariant 0 <= rangeindex + 1 && rangeindex + 1 <= len(pattern)
+//@   loop 1 invariant forall i int :: 0 <= i && i < rangeindex + 1 ==> (pattern[i] is ast.Constant ==> ast.termEq(pattern[i], args[i]))
+
+// SimpleInMemoryStore: predicate -> (atom hash -> atom).
+//@ spec func sshard(s SimpleInMemoryStore, p ast.PredicateSym) map[uint64]ast.Atom = s.shardsByPredicate[p]
+//@ spec func sstored(s SimpleInMemoryStore, x ast.Atom) bool =
+//@      x.Predicate in s.shardsByPredicate && x.Hash() in sshard(s, x.Predicate) && sshard(s, x.Predicate)[x.Hash()] == x
+//@ spec func sview(s SimpleInMemoryStore, a ast.Atom) bool =
+//@      a.Predicate in s.shardsByPredicate && a.Hash() in sshard(s, a.Predicate) && ast.atomEq(sshard(s, a.Predicate)[a.Hash()], a)
+//@ spec func swf(s SimpleInMemoryStore) bool = s.shardsByPredicate != nil &&
+//@      (forall p ast.PredicateSym :: p in s.shardsByPredicate ==> sshard(s, p) != nil && allocated(sshard(s, p))) &&
+//@      (forall p ast.PredicateSym, q ast.PredicateSym :: p in s.shardsByPredicate && q in s.shardsByPredicate && p != q ==> sshard(s, p) != sshard(s, q)) &&
+//@      (forall p ast.PredicateSym, k uint64 :: p in s.shardsByPredicate && k in sshard(s, p) ==> sshard(s, p)[k].Predicate == p && sshard(s, p)[k].Hash() == k)
+// nocollision(s, a): no stored atom shares a's hash without being equal to a (what the hash-keyed maps rely on)
+//@ spec func snocoll(s SimpleInMemoryStore, a ast.Atom) bool =
+//@      a.Predicate in s.shardsByPredicate && a.Hash() in sshard(s, a.Predicate) ==> ast.atomEq(sshard(s, a.Predicate)[a.Hash()], a)
+
+//@ func (s SimpleInMemoryStore) Contains(a)
+//@   requires swf(s)
+//@   modifies nothing
+//@   behavior nocollision:
+//@   assumes snocoll(s, a)
+//@   ensures result == sview(s, a)
+//@   behavior general:
+//@   ensures result == sview(s, a)
+
+//@ func (s SimpleInMemoryStore) Add(a)
+//@   requires swf(s)
+//@   modifies s.shardsByPredicate, sshard(s, a.Predicate)
+//@   ensures swf(s)
+//@   behavior nocollision:
+//@   assumes snocoll(s, a)
+//@   ensures result == !old(sview(s, a))
+//@   ensures sview(s, a)
+//@   ensures forall b ast.Atom :: !(b.Predicate == a.Predicate && b.Hash() == a.Hash()) ==> sview(s, b) == old(sview(s, b))
+//@   behavior general:
+//@   ensures result == !old(sview(s, a))
+//@   ensures sview(s, a)
+
+//@ func (s SimpleInMemoryStore) Remove(a)
+//@   requires swf(s)
+//@   modifies s.shardsByPredicate, sshard(s, a.Predicate)
+//@   ensures swf(s)
+//@   behavior nocollision:
+//@   assumes snocoll(s, a)
+//@   ensures result == old(sview(s, a))
+//@   ensures !sview(s, a)
+//@   ensures forall b ast.Atom :: !(b.Predicate == a.Predicate && b.Hash() == a.Hash()) ==> sview(s, b) == old(sview(s, b))
+
+// A pattern query yields every stored atom that matches the pattern's constants exactly once and nothing else.
+//@ spec func sarity(s SimpleInMemoryStore) bool =
+//@      forall p ast.PredicateSym, k uint64 :: p in s.shardsByPredicate && k in sshard(s, p) ==> len(sshard(s, p)[k].Args) == p.Arity
+//@ func (s SimpleInMemoryStore) GetFacts(a, fn)
+//@   requires swf(s) && sarity(s) && len(a.Args) == a.Predicate.Arity
+//@   modifies nothing
+//@   emits x ast.Atom :: sstored(s, x) && x.Predicate == a.Predicate && Matches(a.Args, x.Args)
+//@   loop 1 invariant forall x ast.Atom :: emitted[x] == old(emitted)[x] + ((sstored(s, x) && x.Predicate == a.Predicate && x.Hash() in seen && Matches(a.Args, x.Args)) ? 1 : 0)
+
+//@ func (s SimpleInMemoryStore) ListPredicates()
+//@   requires swf(s)
+//@   modifies nothing
+//@   ensures forall p ast.PredicateSym :: p in s.shardsByPredicate ==> (exists i int :: 0 <= i && i < len(result) && result[i] == p)
+//@   ensures forall i int :: 0 <= i && i < len(result) ==> result[i] in s.shardsByPredicate
+//@   loop 1 invariant forall p ast.PredicateSym :: p in seen ==> (exists i int :: 0 <= i && i < len(r) && r[i] == p)
+//@   loop 1 invariant forall i int :: 0 <= i && i < len(r) ==> r[i] in s.shardsByPredicate
+
+// Interface contracts: a store denotes a set of ground atoms (ghost view, closed under structural equality).
+//@ ghost view(s ReadOnlyFactStore) set[ast.Atom]
+//@ spec func closedView(s ReadOnlyFactStore) bool = forall a ast.Atom, b ast.Atom :: a in view(s) && ast.atomEq(a, b) ==> b in view(s)
+
+//@ func (self ReadOnlyFactStore) Contains(a)
+//@   modifies nothing
+//@   ensures result == (a in view(self))
+
+//@ func (self FactStore) Add(a)
+//@   modifies view(self)
+//@   ensures result == !old(a in view(self))
+//@   ensures forall b ast.Atom :: (b in view(self)) == (old(b in view(self)) || ast.atomEq(b, a))
+
+//@ func (self FactStoreWithRemove) Remove(a)
+//@   modifies view(self)
+//@   ensures result == old(a in view(self))
+//@   ensures forall b ast.Atom :: (b in view(self)) == (old(b in view(self)) && !ast.atomEq(b, a))
+
+// TeeingStore: reads see base and Out, writes never reach the base.
+//@ spec func tview(s TeeingStore, a ast.Atom) bool = a in view(s.base) || a in view(s.Out)
+//@ spec func twf(s TeeingStore) bool = s.base != nil && s.Out != nil && s.base != s.Out && closedView(s.base) && closedView(s.Out)
+
+//@ func (s TeeingStore) Contains(atom)
+//@   requires twf(s)
+//@   modifies nothing
+//@   ensures result == tview(s, atom)
+
+//@ func (s TeeingStore) Add(atom)
+//@   requires twf(s)
+//@   modifies view(s.Out)
+//@   ensures result == !old(tview(s, atom))
+//@   ensures forall b ast.Atom :: tview(s, b) == (old(tview(s, b)) || ast.atomEq(b, atom))
+
+//@ func (s TeeingStore) Remove(atom)
+//@   requires twf(s)
+//@   modifies view(s.Out)
+//@   ensures forall b ast.Atom :: (b in view(s.Out)) == (old(b in view(s.Out)) && !ast.atomEq(b, atom))
+
+// MultiIndexedArrayInMemoryStore (the output store of every TeeingStore): a pattern query yields nothing but
+// atoms that match the pattern ("nothing else"); completeness of its index structure is not claimed.
+//@ spec func abucket(s *MultiIndexedArrayInMemoryStore, p ast.PredicateSym, i uint16, h uint64, k uint64) []*ast.Atom = s.shardsByPredicate[p][i][h][k]
+//@ spec func ainb(s *MultiIndexedArrayInMemoryStore, p ast.PredicateSym, i uint16, h uint64, k uint64) bool =
+//@      p in s.shardsByPredicate && i in s.shardsByPredicate[p] && h in s.shardsByPredicate[p][i] && k in s.shardsByPredicate[p][i][h]
+//@ spec func aarity(s *MultiIndexedArrayInMemoryStore) bool =
+//@      (forall p ast.PredicateSym, i uint16, h uint64, k uint64, j int :: ainb(s, p, i, h, k) && 0 <= j && j < len(abucket(s, p, i, h, k))
+//@          ==> abucket(s, p, i, h, k)[j] != nil && len(abucket(s, p, i, h, k)[j].Args) == p.Arity)
+//@      && (forall p ast.PredicateSym :: p in s.constants ==> len(s.constants[p].Args) == p.Arity)
+//@ spec func sound(q ast.Atom, e mset[ast.Atom], e0 mset[ast.Atom]) bool = forall x ast.Atom :: e[x] > e0[x] ==> Matches(q.Args, x.Args)
+
+//@ func (s *MultiIndexedArrayInMemoryStore) getFactsOfFirstVariable(a, fn)
+//@   requires s != nil && aarity(s) && len(a.Args) == a.Predicate.Arity
+//@   modifies nothing
+//@   ensures sound(a, emitted, old(emitted))
+//@   loop 1 invariant sound(a, emitted, old(emitted))
+//@   loop 2 invariant sound(a, emitted, old(emitted))
+//@   loop 3 invariant sound(a, emitted, old(emitted))
+
+//@ func (s *MultiIndexedArrayInMemoryStore) GetFacts(a, fn)
+//@   requires s != nil && aarity(s) && len(a.Args) == a.Predicate.Arity && a.Predicate.Arity < 65536
+//@   modifies nothing
+//@   ensures sound(a, emitted, old(emitted))
+//@   loop 1 invariant sound(a, emitted, old(emitted)) && 0 <= i && i <= a.Predicate.Arity
+//@   loop 2 invariant sound(a, emitted, old(emitted)) && 0 <= i && i < a.Predicate.Arity
+//@   loop 3 invariant sound(a, emitted, old(emitted)) && 0 <= i && i < a.Predicate.Arity
+
+// MergedStore: reads see every read store and the write store; writes go to the write store.
+//@ spec func mview(s MergedStore, a ast.Atom) bool = (exists k int :: 0 <= k && k < len(s.readStore) && a in view(s.readStore[k])) || a in view(s.writeStore)
+//@ spec func mwf(s MergedStore) bool = s.writeStore != nil && closedView(s.writeStore) && (forall k int :: 0 <= k && k < len(s.readStore) ==> s.readStore[k] != nil && closedView(s.readStore[k]))
+
+//@ func (s MergedStore) Contains(atom)
+//@   requires mwf(s)
+//@   modifies nothing
+//@   ensures result == mview(s, atom)
+//@   loop 1 invariant forall k int :: 0 <= k && k < rangeindex + 1 ==> !(atom in view(s.readStore[k]))
+
+//@ func (s MergedStore) Add(atom)
+//@   requires mwf(s) && (forall k int :: 0 <= k && k < len(s.readStore) ==> s.readStore[k] != (s.writeStore as ReadOnlyFactStore))
+//@   modifies view(s.writeStore)
+//@   ensures result == !old(mview(s, atom))
+//@   ensures forall b ast.Atom :: mview(s, b) == (old(mview(s, b)) || ast.atomEq(b, atom))
